@@ -15,7 +15,7 @@ ASSUMPTIONS = ["refcodec is my reading of the layout, anchored on the BTS captur
                "(Data3D without links, BTS calibration, events) rest on the pinned implementation's layout"]
 REQUIRED = {t: ["oracle:C06.encode==reference", "oracle:C06.decode==reference",
                 "oracle:C06.capture-decode==reference", "capture:golden-digest-ok",
-                "oracle:C06.entry==reference", "oracle:C06.new==canonical"] for t in ("quick", "thorough")}
+                "oracle:C06.entry==reference", "oracle:C06.new==canonical", "oracle:C06.full-width-field-decoded-whole"] for t in ("quick", "thorough")}
 
 
 def plan(tier, seed):
@@ -23,13 +23,17 @@ def plan(tier, seed):
                       extra=[{"kind": "container-layout", "n": 400 if tier == "quick" else 20000},
                              {"kind": "container-layout", "n": 300 if tier == "quick" else 8000, "env": {"TZ": "Europe/Rome"}},
                              {"kind": "container-layout", "n": 150 if tier == "quick" else 8000,
-                              "env": {"TZ": "America/Sao_Paulo"}}])
+                              "env": {"TZ": "America/Sao_Paulo"}},
+                             {"kind": "full-width", "n": 200 if tier == "quick" else 5000}])
 
 
 def run_shard(desc, rec):
     if desc["kind"] == "container-layout":
         from ..drivers import layout
         return layout.shard_container_layout(desc, rec)
+    if desc["kind"] == "full-width":
+        from ..drivers import layout
+        return layout.shard_full_width(desc, rec)
     codec.run_shard(desc, rec)
 
 
